@@ -11,7 +11,6 @@ import (
 	"path/filepath"
 	"strconv"
 	"strings"
-	"sync"
 
 	"github.com/siglens/siglens/pkg/segment/reader/metrics/series"
 	"github.com/siglens/siglens/pkg/segment/structs"
@@ -293,7 +292,7 @@ func mseriesRead(raw json.RawMessage) (interface{}, error) {
 		return nil, err
 	}
 	defer seg.Close()
-	br, err := seg.InitReaderForBlock(uint16(blk), &structs.MetricsQueryProcessingMetrics{UpdateLock: &sync.Mutex{}})
+	br, err := seg.InitReaderForBlock(uint16(blk), &structs.MetricsQueryProcessingMetrics{UpdateLock: newRepoMutex()})
 	if err != nil {
 		return map[string]interface{}{"initErr": err.Error()}, nil
 	}
